@@ -7,7 +7,7 @@
 EXTENDS FgdDocOps, Json
 
 CONSTANTS WithDoc, WithText,
-          Slice,          \* which family of definitions: "header", "kv", "io", "res", "num"
+          Slice,          \* which family of definitions: "header", "kv", "io", "res", "num", "bin"
           TextLen, TextLimit, TextMinNl
 
 VARIABLES orig, opts, stage, cur, lines, first,      \* document machine
@@ -38,6 +38,12 @@ K2 == KV("k2", <<>>, "integer", "Two", "2", "", FALSE, FALSE, <<>>)
 K1 == KV("k1", <<>>, "string", "One", "", "", FALSE, FALSE, <<>>)
 K1A == KV("k1", <<"A">>, "boolean", "One A", "", "tagged", FALSE, FALSE, <<>>)
 
+KVk(key, name, tags, type, disp, def, desc, ro, rep, list) == [KV(name, tags, type, disp, def, desc, ro, rep, list) EXCEPT !.key = key]
+AllPlainTypes == {"void", "string", "boolean", "integer", "float", "vector", "angle", "target_destination", "target_name_or_class",
+                  "target_source", "npcclass", "pointentityclass", "filterclass", "node_dest", "node_id", "scene", "sound",
+                  "particlesystem", "sprite", "decal", "material", "studio", "scriptlist", "script", "angle_negative_pitch",
+                  "vecline", "origin", "axis", "color1", "color255", "sidelist", "instance_file", "instance_parm",
+                  "instance_variable", "texture", "vec_dir", "vec_local", "angle_pitch", "angle_local", "soundscape"}
 IO(name, tags, type, desc) == [key |-> IF name = "Fire" THEN "fire" ELSE "onfire", name |-> name, tags |-> tags, type |-> type, custom |-> FALSE, desc |-> desc]
 IoTypes == IoValid \cup {"flags", "node_id", "angle_negative_pitch", "angle_pitch", "vecline", "origin", "axis",
                          "vec_dir", "vec_local", "angle", "angle_local", "color1", "choices", "target_source", "sound",
@@ -85,6 +91,33 @@ Docs ==
             \cup {Plain(<<KV("k1", <<>>, "choices", "Nm", de, "", FALSE, FALSE,
                             <<[v |-> de, n |-> "First", tags |-> <<>>], [v |-> v2, n |-> "Second", tags |-> <<>>]>>)>>, <<>>, <<>>) :
                     de \in NumLike, v2 \in {"0", "x"}}
+      [] Slice = "bin" ->
+            \* the binary database: what it keeps of a definition, switch by switch (captions differ
+            \* from key names, key names have mixed case); what it cannot hold must be refused
+            {Plain(<<KVk(nm[1], nm[2], <<>>, ty, di, de, ds, ro, rp, <<>>)>>, <<>>, <<>>) :
+                nm \in {<<"k1", "k1">>, <<"mixedcasekey", "MixedCaseKey">>}, ty \in {"string", "integer", "boolean"},
+                di \in {"", "Caption Text"}, de \in {"", "7", "a b"}, ds \in {"", "Desc"}, ro \in BOOLEAN, rp \in BOOLEAN}
+            \cup {Plain(<<KVk("somekey", "SomeKey", <<>>, ty, di, "1 2 3", "", FALSE, FALSE, <<>>)>>, <<>>, <<>>) :
+                    ty \in AllPlainTypes, di \in {"", "Cap"}}
+            \cup {Plain(<<KV("spawnflags", <<>>, "flags", di, de, "", ro, FALSE, l)>>, <<>>, <<>>) :
+                    di \in {"", "Flags!"}, de \in {"", "3"}, ro \in BOOLEAN,
+                    l \in {<<>>, <<[b |-> "1", n |-> "One", d |-> TRUE, tags |-> <<>>]>>,
+                           <<[b |-> "8388608", n |-> "", d |-> FALSE, tags |-> <<>>], [b |-> "2", n |-> "Two words", d |-> TRUE, tags |-> <<>>]>>}}
+            \cup {Plain(<<Custom>>, <<>>, <<>>)}
+            \* refused: choices, tagged keyvalues (alone or as duplicates), tagged flags, tagged I/O
+            \cup {Plain(<<KV("k1", <<>>, "choices", "Nm", "0", "", FALSE, FALSE, <<[v |-> "0", n |-> "No", tags |-> <<>>]>>)>>, <<>>, <<>>),
+                  Plain(<<K1A>>, <<>>, <<>>), Plain(<<K1, K1A>>, <<>>, <<>>),
+                  Plain(<<KV("spawnflags", <<>>, "flags", "spawnflags", "", "", FALSE, FALSE, <<[b |-> "1", n |-> "One", d |-> TRUE, tags |-> <<"A">>]>>)>>, <<>>, <<>>),
+                  Plain(<<>>, <<IO("Fire", <<"A">>, "void", "")>>, <<>>), Plain(<<>>, <<>>, <<IO("OnFire", <<"A">>, "void", "")>>)}
+            \cup {Ent(k, FALSE, <<>>, <<>>, "", <<>>, <<K2>>, <<>>, <<>>, FALSE, <<>>) : k \in Kinds}
+            \cup {Ent("pointclass", al, b, h, d, IF h = <<>> THEN <<>> ELSE <<"k2">>, <<K2>>, i, o, r[1], r[2]) :
+                    al \in BOOLEAN, b \in {<<>>, <<"info_target">>}, h \in {<<>>, <<Helper("size", <<"-8 -8 -8", "8 8 8">>, FALSE)>>},
+                    d \in {"", "An entity."},
+                    i \in {<<>>, <<IO("Fire", <<>>, "void", "")>>, <<IO("Fire", <<>>, "angle", "Sets it."), IO("OnFire", <<>>, "string", "")>>},
+                    o \in {<<>>, <<IO("OnFire", <<>>, "float", "Fired when.")>>},
+                    r \in {<<FALSE, <<>>>>, <<TRUE, <<>>>>, <<TRUE, <<Res("MODEL", "models/a.mdl", <<>>)>>>>,
+                           <<TRUE, <<Res("GAME_SOUND", "A.b", <<"+A", "B">>), Res("SOUNDSCRIPT", "scripts/x.txt", <<>>)>>>>,
+                           <<TRUE, <<Res("ENTITY", "info_target", <<>>), Res("PARTICLE_FILE", "p.pcf", <<"A">>)>>>>}}
       [] Slice = "res" ->
             {Ent("pointclass", FALSE, <<>>, <<>>, "", <<>>, <<>>, <<>>, <<>>, TRUE, r) :
                 r \in {<<>>} \cup {<<Res(t, f, tg)>> : t \in ResTypes, f \in {"m/a.mdl", "a b\"c"}, tg \in Tags}
@@ -96,7 +129,7 @@ Alphabet == <<"a", " ", "\n", "\"", "\\", "n">>
 
 (* ---- the machines ---------------------------------------------------------- *)
 NoDoc == Plain(<<>>, <<>>, <<>>)
-Init == /\ IF WithDoc THEN orig \in Docs /\ opts \in Opts
+Init == /\ IF WithDoc THEN orig \in Docs /\ opts \in (IF Slice = "bin" THEN {[cs |-> TRUE, ls |-> TRUE]} ELSE Opts)
                       ELSE orig = NoDoc /\ opts = [cs |-> TRUE, ls |-> TRUE]
         /\ stage = "built" /\ cur = orig /\ lines = <<>> /\ first = <<>>
         /\ txt = ""
@@ -160,5 +193,5 @@ BinIdempotent == (stage = "built" /\ BinRepresentable(orig)) =>
     BinDecay(BinDecay(orig, "_CBaseEntity_"), "_CBaseEntity_") = BinDecay(orig, "_CBaseEntity_")
 
 View == <<orig, opts, stage, cur, lines, txt>>
-Emit == stage' # "exported" \/ PrintT(ToJson([tag |-> "CASE", doc |-> orig, opts |-> opts]))
+Emit == stage' # "exported" \/ PrintT(ToJson([tag |-> "CASE", doc |-> orig, opts |-> opts, rep |-> BinRepresentable(orig)]))
 =============================================================================
